@@ -470,7 +470,7 @@ func FMul(a, b *Term) *Term {
 	if b.Op == "fp" && b.FloatVal() == -1 {
 		return FNeg(a)
 	}
-	if Abstract {
+	if Abstract && a.Op != "fp" && b.Op != "fp" {
 		a, b = canon(a, b)
 		return mk("uf", SFP, "fmul", nil, 0, a, b)
 	}
@@ -484,7 +484,7 @@ func FDiv(a, b *Term) *Term {
 	if b.Op == "fp" && b.FloatVal() == 1 {
 		return a
 	}
-	if Abstract {
+	if Abstract && a.Op != "fp" && b.Op != "fp" {
 		return mk("uf", SFP, "fdiv", nil, 0, a, b)
 	}
 	return mk("fp.div", SFP, "", nil, 0, a, b)
